@@ -360,7 +360,7 @@ async def run_scenario(w: World):
             w.log(k='registered', plugin=step[1])
         elif op == 'register_failing':
             # a plugin whose part of the run session fails: step[2] = 'run_ctx' (the `run` context manager raises
-            # on entry, before any child is spawned) | a hook name (that hook raises)
+            # on entry, before any child is spawned) | 'run_ctx_exit' (it raises on exit) | a hook name (that hook raises)
             import contextlib
             from nextline.plugin.spec import hookimpl
 
@@ -374,6 +374,16 @@ async def run_scenario(w: World):
                     w.log(k='failing', plugin=step[1], what=what)
                     raise RuntimeError('verif: the run session of this plugin fails')
                     yield
+                Failing.run = run
+            elif what == 'run_ctx_exit':
+                @hookimpl
+                @contextlib.asynccontextmanager
+                async def run(self, context):
+                    try:
+                        yield
+                    finally:
+                        w.log(k='failing', plugin=step[1], what=what)
+                        raise RuntimeError('verif: the run session of this plugin fails on exit')
                 Failing.run = run
             else:
                 ns = {}
